@@ -304,11 +304,17 @@ bool Instance::eval(const size_t argc, char* const* argv) {
         return false;
     }
     CScript::const_iterator it = script.begin();
-    while (it != script.end()) {
-        if (!StepScript(*env, it, &script)) {
-            fprintf(stderr, "Error: %s\n", ScriptErrorString(*env->serror).c_str());
-            return false;
+    try {
+        while (it != script.end()) {
+            if (!StepScript(*env, it, &script)) {
+                fprintf(stderr, "Error: %s\n", ScriptErrorString(*env->serror).c_str());
+                return false;
+            }
         }
+    } catch (const std::exception& ex) {
+        // e.g. script number overflow: a failed operation, as in Instance::step(), not the end of the debugger
+        fprintf(stderr, "Error: exception thrown: %s\n", ex.what());
+        return false;
     }
     return true;
 }
